@@ -28,7 +28,7 @@ BOUNDS = {
     "quick": {"program_size": 2, "nesting": 2, "inputs": [0, 1, 2], "drivers": len(P.DRIVERS_QUICK)},
     "thorough": {"program_size": 3, "nesting": 2, "inputs": [0, 1, 2], "drivers": len(P.DRIVERS_THOROUGH)},
 }
-CHUNK = 25
+CHUNK = 10
 
 
 def units(tier):
